@@ -126,10 +126,11 @@ func (c *Int) Ident() string {
 		switch x := c.X.Int64(); x {
 		case 0:
 			return "false"
-		case 1:
+		case 1, -1:
+			// The single bit of an i1 is set for both 1 and -1 (two's complement).
 			return "true"
 		default:
-			panic(fmt.Errorf("invalid integer value of boolean type; expected 0 or 1, got %d", x))
+			panic(fmt.Errorf("invalid integer value of boolean type; expected 0, 1 or -1, got %d", x))
 		}
 	}
 	// Output x in hexadecimal notation if x is positive, greater than or equal
